@@ -5,6 +5,7 @@ import (
 	"io"
 	"math"
 	"reflect"
+	"runtime"
 	"runtime/debug"
 	"time"
 
@@ -283,6 +284,11 @@ func (te *taskEnv) runOp(i int, op *Op) {
 	defer func() {
 		if r := recover(); r != nil {
 			rec.Panic = fmt.Sprint(r)
+			if rec.Panic == "" {
+				rec.Panic = "panic"
+			}
+			rec.PanicVal = r
+			_, rec.PanicRT = r.(runtime.Error)
 			rec.Extra = string(debug.Stack())
 		}
 		rec.RetNow = env.Sim.Elapsed()
